@@ -349,7 +349,7 @@ def fifo_query(ctx, name, kind, N, k, threads, oracle, slack, timeout_s, drain=T
         calls = [(fn, [q], "recv")] * N
         graphs.append(build_thread(it, t, calls, w.mem)); after[t] = True
         for j in range(N): plan.append((t, j, "drain", None, ex))
-    S = sum(g.longest_path() for g in graphs) + slack
+    S = sum(g.shortest_path() for g in graphs) + slack
     o = {"after_all": after, "real_time_order": oracle == "linearizable"}
     if opts: o.update(opts)
     b = BMC(graphs, w.mem, S, o)
@@ -536,7 +536,7 @@ def alloc_query(ctx, name, container, N, owned, threads, slack, timeout_s):
             else: raise EncodingError("alloc op " + op)
         graphs.append(build_thread(it, t, calls, w.mem))
         base += owned[t]
-    S = sum(g.longest_path() for g in graphs) + slack
+    S = sum(g.shortest_path() for g in graphs) + slack
     b = BMC(graphs, w.mem, S, {"real_time_order": True})
     pre = [z3.ULT(x, BV(32, N)) for x in allids] + [allids[i] != allids[j] for i in range(len(allids)) for j in range(i + 1, len(allids))]
     res = {}
@@ -741,7 +741,7 @@ def arc_query(ctx, name, container, N, threads, slack, timeout_s):
         graphs.append(build_thread(it, t, calls, w.mem))
     f_alloc = ctx.index.method("alloc_ref", ctx.type_files["OgreArrayPoolAllocator"], "OgreArrayPoolAllocator")
     graphs.append(build_thread(it, T, [(f_alloc, [Ptr("a")], "alloc")] * (N + 1), w.mem))
-    S = sum(g.longest_path() for g in graphs) + slack
+    S = sum(g.shortest_path() for g in graphs) + slack
     b = BMC(graphs, w.mem, S, {"after_all": {T: True}, "heap_roots": ["in0"]})
     S = b.S
     allids = free_ids + [d]
@@ -813,4 +813,180 @@ def _c14_registry(add, tier, TO):
     q("c14_keep_one", "thorough", "AtomicMove", 2, [["clone_drop", "count"], ["inc_rawcopy_drop", "drop"]])
 
 
-EXTRA_REGISTRIES = [("C13", _c13_registry), ("C14", _c14_registry)]
+
+
+# =========================================================================================================
+# channel level: uni::channels::movable::atomic::Atomic (reservation API, C08)
+UMA_FILE = "src/uni/channels/movable/atomic.rs"
+PRELUDE += """
+fn __verif::uma_reserve_fill_send_or_cancel(_1: &Atomic, _2: u32) -> u32 {
+    let mut _0: u32;
+    let mut _3: Option<&mut u32>;
+    let mut _4: isize;
+    let mut _5: &mut u32;
+    let mut _6: bool;
+    let mut _7: bool;
+    let mut _8: bool;
+
+    bb0: {
+        _3 = @src/uni/channels/movable/atomic.rs:reserve_slot(copy _1) -> [return: bb1, unwind continue];
+    }
+
+    bb1: {
+        _4 = discriminant(_3);
+        switchInt(move _4) -> [0: bb2, otherwise: bb3];
+    }
+
+    bb2: {
+        _0 = const 0_u32;
+        return;
+    }
+
+    bb3: {
+        _5 = copy ((_3 as Some).0: &mut u32);
+        (*_5) = copy _2;
+        _6 = @src/uni/channels/movable/atomic.rs:try_send_reserved(copy _1, copy _5) -> [return: bb4, unwind continue];
+    }
+
+    bb4: {
+        switchInt(copy _6) -> [0: bb5, otherwise: bb9];
+    }
+
+    bb5: {
+        _7 = @src/uni/channels/movable/atomic.rs:try_cancel_slot_reserve(copy _1, copy _5) -> [return: bb6, unwind continue];
+    }
+
+    bb6: {
+        switchInt(copy _7) -> [0: bb7, otherwise: bb10];
+    }
+
+    bb7: {
+        _8 = @src/uni/channels/movable/atomic.rs:try_send_reserved(copy _1, copy _5) -> [return: bb8, unwind continue];
+    }
+
+    bb8: {
+        switchInt(copy _8) -> [0: bb11, otherwise: bb9];
+    }
+
+    bb9: {
+        _0 = const 1_u32;
+        return;
+    }
+
+    bb10: {
+        _0 = const 2_u32;
+        return;
+    }
+
+    bb11: {
+        _0 = const 3_u32;
+        return;
+    }
+}
+"""
+
+
+def uni_move_atomic_world(ctx, N, MS, k):
+    consts = {"BUFFER_SIZE": N, "MAX_STREAMS": MS}
+    types = {"SlotType": "u32", "ItemType": "u32"}
+    w = World(ctx.index, ctx.type_files, consts, types)
+    origin = w.sym("origin")
+    pre = [w.sym("pre%d" % i) for i in range(k)]
+    cf = {nm: i for i, nm in enumerate(layout.struct_fields(UMA_FILE, "Atomic"))}
+    w.atomic_move("ch", (cf["channel"],), N, origin, pre)
+    sf = {nm: i for i, nm in enumerate(w.fields("StreamsManagerBase"))}
+    sm = (cf["streams_manager"],)
+    w.decl("ch", sm + (sf["wakers"], "*"), "frozen", None, value=opt_none())          # no stream is registered in these queries
+    w.decl("ch", sm + (sf["wakers_lock"],), "atomic", z3.BoolSort(), z3.BoolVal(False))
+    return w, Ptr("ch"), pre
+
+
+def reservation_query(ctx, name, N, k, nprod, nrecv, slack, timeout_s):
+    """nprod producer threads each: reserve + fill + try_send_reserved (if refused: try_cancel; if that is refused too: one more
+    try_send_reserved); one consumer thread polling nrecv times; afterwards a drain of N receives followed by N plain sends"""
+    w, ch, pre = uni_move_atomic_world(ctx, N, 1, k)
+    it = w.interp()
+    F = lambda m: ctx.index.method(m, UMA_FILE)
+    graphs = []; vals = []
+    for t in range(nprod):
+        v = w.sym("v%d" % t); vals.append(v)
+        graphs.append(build_thread(it, t, [(ctx.helper("uma_reserve_fill_send_or_cancel"), [ch, v], "reserve_fill_send_or_cancel")], w.mem))
+    f_consume = F("consume"); f_send = F("send")
+    graphs.append(build_thread(it, nprod, [(f_consume, [ch, BV(32, 0)], "recv")] * nrecv, w.mem))
+    T = nprod + 1
+    refill = [w.sym("refill%d" % i) for i in range(N)]
+    refill = []        # (capacity restoration after reservations is decided by the sequential K harnesses; here only the drain)
+    graphs.append(build_thread(it, T, [(f_consume, [ch, BV(32, 0)], "recv")] * N, w.mem))
+    S = sum(g.shortest_path() for g in graphs) + slack
+    b = BMC(graphs, w.mem, S, {"after_all": {T: True}})
+    S = b.S
+    allv = vals + pre + refill
+    cons = [allv[i] != allv[j] for i in range(len(allv)) for j in range(i + 1, len(allv))] + [z3.And(z3.UGE(v, BV(32, 0x1000)), z3.ULT(v, BV(32, POISON))) for v in allv]
+    codes = [b.results(t, lambda j, v: {"code": v})[0]["code"] for t in range(nprod)]
+    recvs = b.results(nprod, lambda j, v: ex_option_u32(v)) + b.results(T, lambda j, v: ex_option_u32(v) if j < N else {})[:N]
+    def ex_send(v): return {"ok": v.discr == 0}
+    sends = b.results(T, lambda j, v: ex_send(v) if j >= N else {})[N:]
+    valid = [(codes[t] == 1, vals[t]) for t in range(nprod)] + [(z3.BoolVal(True), v) for v in pre]
+    good = []
+    for r in recvs: good.append(z3.Implies(r["some"], z3.Or([z3.And(ok, r["val"] == v) for ok, v in valid])))      # nothing cancelled / unsent is delivered
+    for i in range(len(recvs)):
+        for j in range(i + 1, len(recvs)): good.append(z3.Not(z3.And(recvs[i]["some"], recvs[j]["some"], recvs[i]["val"] == recvs[j]["val"])))
+    for ok, v in valid: good.append(z3.Implies(ok, z3.Or([z3.And(r["some"], r["val"] == v) for r in recvs])))       # a sent slot is delivered
+    for c in codes: good.append(c != 3)                                                                             # a reservation can always be sent or cancelled eventually
+    for sd in sends: good.append(sd["ok"])                                                                           # capacity restored: BUFFER_SIZE events accepted again
+    meta = {"threads": ["%d:reserve+fill+try_send_reserved|try_cancel" % t for t in range(nprod)] + ["%d:consume x%d" % (nprod, nrecv), "drain x%d (runs after all)" % N],
+            "oracle": "sent reservations delivered exactly once with the written content, cancelled ones never, every reservation resolvable, BUFFER_SIZE events accepted afterwards",
+            "bounds": "ChannelUniMoveAtomic<u32,%d,1>, pre-filled %d, origin any u32, steps<=%d" % (N, k, S)}
+    violation = cons + [z3.Or(z3.And(b.all_done(), z3.Not(z3.And(good))), b.any_panic(), b.err[S])]
+    witness = cons + [b.all_done()] + [c == 1 for c in codes]
+    meta["functions"] = sorted(set(x.split(">::")[-1] + " @" + (re.search(r"impl at (src/[^:]*)", x).group(1) if "impl at" in x else "") for x in it.functions_used))
+    meta["intrinsics"] = sorted(it.intrinsics_used)
+    rec, model = solve(name, b, violation, witness, timeout_s, ctx.workdir, meta)
+    if model is not None:
+        import replay
+        rec["trace"] = b.decode_schedule(model)
+        inp = {nm: model.eval(v, model_completion=True).as_long() for nm, v in w.inputs.items()}
+        rec["inputs"] = inp
+        rec["model_results"] = {"codes": [str(model.eval(c, model_completion=True)) for c in codes],
+                                "recvs": [{kx: str(model.eval(vx, model_completion=True)) for kx, vx in r.items()} for r in recvs],
+                                "refill_sends": [str(model.eval(sd["ok"], model_completion=True)) for sd in sends]}
+        progs = [["reserve_send_or_cancel:%d" % inp["v%d" % t]] for t in range(nprod)] + [["recv"] * nrecv]
+        after = ["recv"] * N
+        prefill_vals = [inp["pre%d" % i] for i in range(k)]
+        segs = replay.segments_from_trace(rec["trace"], skip_threads=(T,))
+        def symptom(h):
+            if h["panics"]: return "panic: " + h["panics"][0]
+            if h["stuck"] or h["timeout"]: return "a thread could not finish (stuck): " + str(h["stuck"])
+            sent = list(prefill_vals); cancelled = []
+            for e in h["events"]:
+                if e["op"] == "reserve_send_or_cancel":
+                    if e["res"][:2] == ["code", "1"]: sent.append(e["arg"])
+                    elif e["res"][:2] == ["code", "2"]: cancelled.append(e["arg"])
+                    elif e["res"][:2] == ["code", "3"]: return "a reservation could neither be sent nor cancelled"
+            got = [int(e["res"][1]) for e in h["events"] if e["op"] == "recv" and e["res"][0] == "some"]
+            for v in got:
+                if v in cancelled: return "a CANCELLED reservation (%d) was delivered" % v
+                if v not in sent: return "delivered %d which was never sent" % v
+            if len(set(got)) != len(got): return "delivered twice: %s" % got
+            for v in sent:
+                if v not in got: return "sent reservation %d never delivered" % v
+            rf = [e for e in h["events"] if e["op"] == "send"]
+            if any(e["res"][:2] != ["ok", "true"] for e in rf): return "after everything was consumed the channel accepted only %d of %d events" % (sum(1 for e in rf if e["res"][:2] == ["ok", "true"]), N)
+            return None
+        found, why, tried = replay.search("UniMoveAtomic", N, [inp["origin"]], prefill_vals, progs, after, segs, symptom)
+        rec["native_runs"] = tried
+        if found: rec.update(verdict="violation", symptom=found["symptom"], replayed=True, native_history=found["history"]["events"], native_segments=found["segments"])
+        else: rec.update(verdict="inconclusive", why="model counterexample %s did not reproduce natively: %s" % (rec["model_results"], why))
+    return rec
+
+
+def _c08_registry(add, tier, TO):
+    def q(name, qtier, N, k, nprod, nrecv, slack=7):
+        add("C08", name, qtier, lambda ctx: reservation_query(ctx, name, N, k, nprod, nrecv, slack, TO))
+    q("c08_reserve_vs_consumer_n2_k0", "quick", 2, 0, 1, 2)
+    q("c08_reserve_vs_consumer_n2_k1", "quick", 2, 1, 1, 2)
+    q("c08_two_reservers_vs_consumer_n2_k0", "thorough", 2, 0, 2, 2)
+    q("c08_reserve_vs_consumer_n4_k3", "thorough", 4, 3, 1, 3)
+
+
+EXTRA_REGISTRIES = [("C13", _c13_registry), ("C14", _c14_registry), ("C08", _c08_registry)]
